@@ -136,6 +136,20 @@ static const char *sarg(int argc, char **argv, const char *key, const char *def)
 	return def;
 }
 
+// failalloc=K: the K-th allocation liblzma makes through lzma_stream.allocator fails (once); any thread
+static _Atomic long alloc_count;
+static long alloc_fail_at;
+static void *drv_alloc(void *opaque, size_t nmemb, size_t size)
+{
+	(void)opaque;
+	long n = atomic_fetch_add(&alloc_count, 1) + 1;
+	if (alloc_fail_at && n == alloc_fail_at)
+		return NULL;
+	return malloc(nmemb * size ? nmemb * size : 1);
+}
+static void drv_free(void *opaque, void *ptr) { (void)opaque; free(ptr); }
+static lzma_allocator drv_allocator = { &drv_alloc, &drv_free, NULL };
+
 uint8_t *mt_drv_keep[2];     // the driver's own buffers stay reachable: not reported by LeakSanitizer
 
 int main(int argc, char **argv)
@@ -171,6 +185,9 @@ int main(int argc, char **argv)
 	lzma_verif_ev = &on_ev;
 
 	lzma_stream strm = LZMA_STREAM_INIT;
+	alloc_fail_at = arg(argc, argv, "failalloc", 0);
+	if (alloc_fail_at)
+		strm.allocator = &drv_allocator;
 	lzma_mt mt;
 	memset(&mt, 0, sizeof(mt));
 	mt.threads = (uint32_t)arg(argc, argv, "threads", 2);
@@ -197,7 +214,12 @@ int main(int argc, char **argv)
 		r = lzma_stream_decoder_mt(&strm, &mt);
 	}
 	record("Init", -1, r, mt.threads, 0, 0);
-	if (r != LZMA_OK) { dump(NULL); return 1; }
+	if (r != LZMA_OK) {
+		dump(NULL);
+		lzma_end(&strm);
+		printf("ret=%d init\n", (int)r);
+		return (alloc_fail_at && r == LZMA_MEM_ERROR) ? 0 : 1;
+	}
 
 	// encoder action script: "f1000,b5000" = FULL_FLUSH after 1000 input bytes, FULL_BARRIER after 5000
 	const char *script = sarg(argc, argv, "actions", "");
@@ -331,6 +353,7 @@ int main(int argc, char **argv)
 	FILE *fo = fopen(argv[3], "wb");
 	if (fo) { fwrite(out, 1, op, fo); fclose(fo); }
 	dump(NULL);
-	printf("ret=%d in=%zu out=%zu calls=%ld events=%ld\n", (int)ret, ip, op, calls, (long)atomic_load(&nev));
+	printf("ret=%d in=%zu out=%zu calls=%ld events=%ld allocs=%ld\n", (int)ret, ip, op, calls, (long)atomic_load(&nev),
+			(long)atomic_load(&alloc_count));
 	return 0;
 }
